@@ -41,7 +41,7 @@ func c01Key(class string, n int, fs bool) string {
 	return fmt.Sprintf("obj-%d", n)
 }
 
-var c01MetaClasses = []string{"none", "ctype", "usermeta", "encoding-disposition", "big"}
+var c01MetaClasses = []string{"none", "ctype", "usermeta", "encoding-disposition", "big", "highbytes"}
 
 func c01Meta(class string, n int) http.Header {
 	h := http.Header{}
@@ -56,6 +56,11 @@ func c01Meta(class string, n int) http.Header {
 		h.Set("Content-Encoding", "gzip")
 		h.Set("Content-Disposition", fmt.Sprintf(`attachment; filename="f-%d.bin"`, n))
 		h.Set("Content-Type", "text/plain")
+	case "highbytes":
+		// header values are octets: bytes above 0x7f that do not form UTF-8 (a Latin-1 file name, say)
+		h.Set("x-amz-meta-latin", fmt.Sprintf("caf\xe9 %d", n))
+		h.Set("Content-Disposition", "attachment; filename=\"na\xefve.txt\"")
+		h.Set("x-amz-meta-utf8", "caf\u00e9 \u65e5\u672c")
 	case "big":
 		for i := 0; i < 10; i++ {
 			h.Set(fmt.Sprintf("x-amz-meta-k%02d", i), strings.Repeat(string(rune('a'+i)), 100))
@@ -136,7 +141,7 @@ func sizeClassOf(n int) string {
 
 func runC01(c *Ctx) {
 	r := c.R
-	r.SetRule("body size ladder (0,1,2,15..17,511..513,4095..4097,32767..32769,65535..65537, 1 MiB-1/1 MiB/1 MiB+1, thorough also 3 MiB+7, plus random sizes) x byte pattern (zeros, 0xFF, all 256 values, CR/LF/NUL-heavy, random) x key class (plain, nested, needs-escaping, UTF-8, long, dotted) x metadata class x upload path (PUT, browser-form POST, copy, Go PutObject) on all seven backend configurations with integrity checking on and off; every upload is read back by GET, HEAD, List V1/V2 and the Go API, and every third one again after ten bystander requests (refused bucket delete/create, bucket sub-resource reads, reads and deletes of a never-written sibling key); overwrites go longer->shorter, and every fourth PUT / Go PutObject is repeated with the same bytes and other metadata; distinct = (backend, integrity, upload path, size, pattern, key class, metadata class) with a body different from the key's previous body")
+	r.SetRule("body size ladder (0,1,2,15..17,511..513,4095..4097,32767..32769,65535..65537, 1 MiB-1/1 MiB/1 MiB+1, thorough also 3 MiB+7, plus random sizes) x byte pattern (zeros, 0xFF, all 256 values, CR/LF/NUL-heavy, random) x key class (plain, nested, needs-escaping, UTF-8, long, dotted) x metadata class x upload path (PUT, browser-form POST, copy, Go PutObject) on all seven backend configurations with integrity checking on and off; every upload is read back by GET, HEAD, List V1/V2 and the Go API, and every third one again after ten bystander requests (refused bucket delete/create, bucket sub-resource reads, reads and deletes of a never-written sibling key); overwrites go longer->shorter, and every fourth PUT / Go PutObject is repeated with the same bytes and other metadata; six objects per backend are also read by GET and HEAD through a real net/http server and their entity headers compared; distinct = (backend, integrity, upload path, size, pattern, key class, metadata class) with a body different from the key's previous body")
 	sizes := append([]int(nil), gen.SizeLadder...)
 	sizes = append(sizes, 1<<20-1, 1<<20, 1<<20+1)
 	if r.Thorough() {
@@ -465,12 +470,67 @@ func runC01(c *Ctx) {
 			doCase(size, rng.Intn(gen.NumPatterns), gen.Pick(rng, c01KeyClasses), gen.Pick(rng, c01MetaClasses), rng.Intn(6))
 		}
 	})
+	// HEAD and GET over a real net/http server: "HEAD reports the same entity headers". The real
+	// server adds headers of its own to a GET (it sniffs a Content-Type when the handler sets none);
+	// whatever a client sees as entity headers of the object must not depend on the method.
+	for _, kind := range drv.AllKinds {
+		s := mustServer(drv.Opts{Kind: kind})
+		bucket := "bytes-bucket"
+		if drv.IsSingle(kind) {
+			bucket = drv.SingleName
+		} else {
+			s.CreateBucket(bucket)
+		}
+		tcp := s.ServeTCP()
+		cl := drv.NewTCPClient()
+		rng := gen.Rng(r.Seed, "C01-tcp-"+kind, 0)
+		for i, tc := range []struct {
+			size int
+			pat  int
+			meta http.Header
+		}{
+			{300, gen.PatRandom, nil}, {300, gen.PatZero, nil}, {0, gen.PatZero, nil}, {40, gen.PatCRLF, drv.H("x-amz-meta-a", "1")},
+			{600, gen.PatRandom, drv.H("Content-Type", "application/x-own")}, {70000, gen.PatRandom, nil},
+		} {
+			body := gen.Body(rng, tc.size, tc.pat, uint32(i))
+			if tc.size > 8 && i == 0 {
+				copy(body, []byte("<html><body>")) // something a sniffer recognises
+			}
+			key := fmt.Sprintf("tcp/obj-%d", i)
+			up, err := cl.Do("PUT", tcp.URL(drv.ObjPath(bucket, key), ""), tc.meta, bytes.NewReader(body), int64(len(body)))
+			if err != nil || up.Status != 200 {
+				r.Violation(sig("C01", backendClass(kind), "upload-refused", "tcp"), fmt.Sprintf("%s PUT over TCP: %v %v", kind, up, err), nil)
+				continue
+			}
+			g, gerr := cl.Do("GET", tcp.URL(drv.ObjPath(bucket, key), ""), nil, nil, 0)
+			h, herr := cl.Do("HEAD", tcp.URL(drv.ObjPath(bucket, key), ""), nil, nil, 0)
+			if gerr != nil || herr != nil {
+				r.Violation(sig("C01", backendClass(kind), "request-failed", "tcp"), fmt.Sprintf("%s GET/HEAD over TCP: %v %v", kind, gerr, herr), nil)
+				continue
+			}
+			r.Eval(1)
+			r.Count("head_get_pairs_over_tcp", 1)
+			r.Distinct(fmt.Sprintf("%s|tcp-head-get|%d", kind, i))
+			c01CheckRead(r, kind, "get-tcp", "put", key, c01Expect{body: body, meta: tc.meta}, g.Status, g.Body, true, g.ETag(), g.Header.Get("Content-Length"), g.Header, sizeClassOf(tc.size))
+			for _, hn := range []string{"Content-Type", "Content-Length", "Etag", "Last-Modified", "Content-Encoding", "Content-Disposition", "X-Amz-Meta-A", "Accept-Ranges"} {
+				if g.Header.Get(hn) != h.Header.Get(hn) {
+					r.Violation(sig("C01", backendClass(kind), "head-differs-from-get", hn), fmt.Sprintf("%s over TCP, object of %d bytes uploaded with headers %v: GET reports %s: %q, HEAD reports %q", kind, tc.size, tc.meta, hn, g.Header.Get(hn), h.Header.Get(hn)), nil)
+				}
+			}
+			if len(h.Body) != 0 {
+				r.Violation(sig("C01", backendClass(kind), "head-with-body", "tcp"), fmt.Sprintf("%s HEAD over TCP returned %d body bytes", kind, len(h.Body)), nil)
+			}
+		}
+		cl.Close()
+		tcp.Close()
+		s.Close()
+	}
 	for _, p := range paths {
 		r.Require("uploads_"+p, 100)
 	}
 	r.Require("reads_get", 1000)
 	r.Require("reads_list-v2", 500)
-	r.Assume("extra response headers and metadata carried over from an overwritten object are not judged; for browser-form POST and copy only body, length and ETag are judged; metadata values are visible ASCII",
+	r.Assume("extra response headers and metadata carried over from an overwritten object are not judged; for browser-form POST and copy only body, length and ETag are judged; metadata values are visible ASCII, UTF-8 or arbitrary bytes above 0x7f",
 		"fs backends: keys up to 212 bytes (the backend flattens the key into one metadata file name)")
 	_ = gofakes3.ErrNoSuchKey
 }
